@@ -87,6 +87,18 @@ func (x *Exec) specEnv(fr *frame, st *State, blk *ssa.BasicBlock, _ int) *Env {
 			env.lets[l.Name] = l.Cl.Expr
 		}
 	}
+	// captured variables of a closure verified on its own: the name denotes the pointer to the
+	// captured cell (write *name for the variable's value)
+	for i, fv := range fr.fn.FreeVars {
+		if _, taken := env.names[fv.Name()]; taken {
+			continue
+		}
+		if v, ok := fr.vals[fv]; ok {
+			env.names[fv.Name()] = svOfVal(v, fv.Type())
+		} else if i < len(x.entryBinds) && fr.top {
+			env.names[fv.Name()] = svOfVal(x.entryBinds[i], fv.Type())
+		}
+	}
 	return env
 }
 
@@ -225,7 +237,15 @@ func (env *Env) eval(e ast.Expr) SV {
 		case "nil":
 			return SV{K: SGo, V: Val{ic("0"), ic("0"), ic("0"), ic("0")}, Ty: nil}
 		}
-		if env.site != nil && !strings.HasPrefix(n.Name, "arg") {
+		isFree := false
+		if env.fr != nil {
+			for _, fv := range env.fr.fn.FreeVars {
+				if fv.Name() == n.Name {
+					isFree = true // a captured variable: the name is the pointer to its cell
+				}
+			}
+		}
+		if env.site != nil && !strings.HasPrefix(n.Name, "arg") && !isFree {
 			// in a site assertion a name denotes the variable's current value (a parameter may have
 			// been assigned to); old(name) gives the entry value
 			if env.st != env.old {
@@ -865,20 +885,31 @@ func (env *Env) callExpr(n *ast.CallExpr) SV {
 			return svOfVal(last.Res, rt.At(0).Type())
 		}
 		return svOfVal(last.Res, rt)
+	case "obj":
+		// the object a reader / writer / pointer value denotes (interface: the pointer inside)
+		v := arg(0)
+		_, ref := streamKey(x, v.Ty, v.V)
+		return svInt(ref)
 	case "written":
-		v := arg(0)
-		return svInt(ghost(env.st, "written:"+x.vc.canon(v.V[1].T)))
+		return svInt(gget(x, env.st, "GH_WRITTEN", arg(0).V[1].T))
 	case "wcalls":
-		v := arg(0)
-		return svInt(ghost(env.st, "wcalls:"+x.vc.canon(v.V[1].T)))
+		return svInt(gget(x, env.st, "GH_WCALLS", arg(0).V[1].T))
 	case "spos", "ssize":
 		// position in / length of the byte stream a reader value denotes (streams plug-in)
 		v := arg(0)
-		key, ref := streamKey(x, v.Ty, v.V)
+		_, ref := streamKey(x, v.Ty, v.V)
 		if fn.Name == "ssize" {
 			return svInt(sx("ssize", ref))
 		}
-		return svInt(ghost(env.st, "spos:"+key))
+		return svInt(gget(x, env.st, "GH_SPOS", ref))
+	case "pjoin2", "pjoin3", "pfmt", "pdir", "pbase", "strcat", "prel":
+		// the path algebra of the paths plug-in (filepath.Join, Sprintf of a name template, Dir, Base,
+		// string concatenation) as spec functions over strings
+		var as []string
+		for i := range n.Args {
+			as = append(as, arg(i).V[0].T)
+		}
+		return SV{K: SGo, V: Val{ic(sx(fn.Name, as...))}, Ty: types.Typ[types.String]}
 	case "inroot", "rooted", "seg", "relsafe":
 		v := arg(0)
 		return svBool(sx(fn.Name, v.V[0].T))
